@@ -33,6 +33,10 @@ class Future(IBlockingDeref[T], IPending):
         try:
             return self._future.result(timeout=timeout)
         except _TimeoutError:
+            # A finished future cannot have timed out: the body itself raised a
+            # TimeoutError (or finished just now), so yield its outcome.
+            if self._future.done():
+                return self._future.result()
             return timeout_val
 
     def done(self) -> bool:
